@@ -12,7 +12,7 @@ def build_and_run(src, cxx="g++", flags="", name=None, timeout=1800, run_prefix=
         rc, out, dt = sh(f"{cxx} -std=c++17 {flags} -I{REPO}/include -I{os.path.dirname(src)} -o {d}/bin {src}", timeout=timeout)
         res = {"compile_rc": rc, "compile_out": out[-3000:], "run_rc": None, "run_out": ""}
         if rc == 0:
-            rc2, out2, dt2 = sh(f"{run_prefix} timeout 900 {d}/bin", timeout=1000)
+            rc2, out2, dt2 = sh(f"{run_prefix} timeout 300 {d}/bin", timeout=400)
             res["run_rc"] = rc2; res["run_out"] = out2[-6000:]
             try: os.remove(d + "/bin")
             except OSError: pass
